@@ -971,6 +971,32 @@ def b_node_junctions(S):
         slice_from="if len(nodes) == 0", default_num="Rat", join="tuple", nat_sub=True)
 
 
+def b_intersection_filter(S):
+    """`determine_valid_intersection_points_no_vnode`: the four nested loops that drop the intersection points lying on a shared
+    END of the trace and a candidate (those are V-nodes, judged from the ends). Geometry is a parameter."""
+    C = {
+        "determine_valid_intersection_points(trace_candidates.intersection(geom))": "inter0",
+        "get_trace_endpoints(geom)": "(ends_of geom)",
+        "[True] * len(inter)": "(List.replicate inter.length true)",
+        "trace_candidates.geometry.values": "trace_candidates",
+        "get_trace_endpoints(trace_candidate)": "(ends_of trace_candidate)",
+        "np.isclose(ce.distance(ge), 0, atol=0.0001)": "(close ce ge)",
+        "np.isclose(ge.distance(p), 0, atol=0.0001)": "(close ge p)",
+        "p_to_keep[idx]": "(p_to_keep.getD idx true)",
+        "list(compress(inter, selectors=p_to_keep))": "(pyCompress inter p_to_keep)",
+    }
+    T = {"determine_valid_intersection_points(trace_candidates.intersection(geom))": "List P", "inter": "List P", "get_trace_endpoints(geom)": "List P",
+         "geom_endpoints": "List P", "[True] * len(inter)": "List Bool", "p_to_keep": "List Bool", "trace_candidates.geometry.values": "List L",
+         "get_trace_endpoints(trace_candidate)": "List P", "candidate_endpoints": "List P", "np.isclose(ce.distance(ge), 0, atol=0.0001)": "Bool",
+         "candidate_endpoint_is_close_to_geom_endpoint": "Bool", "np.isclose(ge.distance(p), 0, atol=0.0001)": "Bool", "p_to_keep[idx]": "Bool",
+         "list(compress(inter, selectors=p_to_keep))": "List P", "inter_filtered": "List P"}
+    return translate_function(
+        S[GENERAL], "determine_valid_intersection_points_no_vnode", "intersection_points_no_vnode",
+        {"trace_candidates": "List L", "geom": "L"}, "List P", C, types=T,
+        extra_params=[("{L}", "Type"), ("{P}", "Type"), ("inter0", "List P"), ("ends_of", "L → List P"), ("close", "P → P → Bool")],
+        slice_from="inter = determine_valid_intersection_points", default_num="Nat", join="tuple")
+
+
 def b_junction_shift(S):
     src = S[GENERAL]
     tree = ast.parse(src)
@@ -1211,6 +1237,7 @@ ITEMS: List[Item] = [
     Item("CalcBins", AZIMUTH, ["C15"], b_calc_bins),
     Item("JunctionShift", GENERAL, ["C02", "C16"], b_junction_shift),
     Item("NodeJunctions", GENERAL, ["C02", "C10"], b_node_junctions, extra_modules=[TVALS]),
+    Item("IntersectionFilter", GENERAL, ["C02"], b_intersection_filter),
     Item("ValidatorTable", TVALS, ["C09", "C13", "C02"], b_validator_table, extra_modules=[TVAL]),
     Item("ValidateStep", TVAL, ["C09", "C13"], b_validate_step),
     Item("UnderlapValidator", TVALS, ["C10", "C13"], b_underlap_validator),
